@@ -13,18 +13,66 @@ import ast as _ast
 _ARITY_CACHE = {}
 
 
-def _threshold_of(tree):
+def _int_consts(prog):
+    """Module-level and class-level `NAME = <int>` definitions of the whole program (a length may
+    be compared against a named constant)."""
+    key = ("consts", id(prog))
+    if key not in _ARITY_CACHE:
+        out = {}
+        for mod in prog.modules.values():
+            for n in _ast.walk(mod.tree):
+                tgt, val = None, None
+                if isinstance(n, _ast.Assign) and len(n.targets) == 1 and isinstance(n.targets[0], _ast.Name):
+                    tgt, val = n.targets[0].id, n.value
+                elif isinstance(n, _ast.AnnAssign) and isinstance(n.target, _ast.Name) and n.value is not None:
+                    tgt, val = n.target.id, n.value
+                if tgt and isinstance(val, _ast.Constant) and isinstance(val.value, int) and not isinstance(val.value, bool):
+                    out.setdefault(tgt, set()).add(abs(val.value))
+        _ARITY_CACHE[key] = out
+    return _ARITY_CACHE[key]
+
+
+def _threshold_of(tree, consts=None):
+    consts = consts or {}
     cmax = 0
+    # locals that hold a length: assigned from an expression that calls len()
+    lengthy_names = set()
+    for n in _ast.walk(tree):
+        if isinstance(n, (_ast.Assign, _ast.AnnAssign, _ast.AugAssign)) and getattr(n, "value", None) is not None \
+                and any(isinstance(c, _ast.Call) and isinstance(c.func, _ast.Name) and c.func.id == "len" for c in _ast.walk(n.value)):
+            for t in (n.targets if isinstance(n, _ast.Assign) else [n.target]):
+                if isinstance(t, _ast.Name):
+                    lengthy_names.add(t.id)
+
+    def int_values(x):
+        if isinstance(x, _ast.Constant) and isinstance(x.value, int) and not isinstance(x.value, bool):
+            return {abs(x.value)}
+        if isinstance(x, _ast.UnaryOp) and isinstance(x.operand, _ast.Constant) and isinstance(x.operand.value, int):
+            return {abs(x.operand.value)}
+        if isinstance(x, _ast.Name) and x.id in consts and x.id not in lengthy_names:
+            return consts[x.id]
+        if isinstance(x, _ast.Attribute) and x.attr in consts:
+            return consts[x.attr]
+        if isinstance(x, _ast.BinOp):
+            a, b = int_values(x.left), int_values(x.right)
+            return {u + v for u in (a or {0}) for v in (b or {0})} if (a or b) else set()
+        return set()
+
+    def lengthy(x):
+        for c in _ast.walk(x):
+            if isinstance(c, _ast.Call) and isinstance(c.func, _ast.Name) and c.func.id == "len":
+                return True
+            if isinstance(c, _ast.Name) and (c.id in lengthy_names or any(t in c.id.lower() for t in ("count", "length", "arity", "size"))):
+                return True
+        return False
     for n in _ast.walk(tree):
         if isinstance(n, _ast.Compare):
             sides = [n.left] + list(n.comparators)
-            lengthy = any((isinstance(x, _ast.Call) and isinstance(x.func, _ast.Name) and x.func.id == "len") or
-                          (isinstance(x, _ast.Name) and any(t in x.id.lower() for t in ("count", "length", "arity", "size")))
-                          for x in sides)
-            if lengthy:
+            if any(lengthy(x) for x in sides):
                 for x in sides:
-                    if isinstance(x, _ast.Constant) and isinstance(x.value, int) and not isinstance(x.value, bool):
-                        cmax = max(cmax, abs(x.value))
+                    for v in int_values(x):
+                        if v < 50:
+                            cmax = max(cmax, v)
         if isinstance(n, _ast.Call) and isinstance(n.func, _ast.Name) and n.func.id == "range":
             for x in n.args:
                 for c in _ast.walk(x):
@@ -51,17 +99,29 @@ def method_threshold(prog, cls, method):
         names |= {"at"}
     if method in ("__repr__", "__str__"):
         names |= {"__repr__", "__str__", "_to_string"}
+    consts = _int_consts(prog)
+    # helper methods of the class that these methods call (transitively)
+    work = list(names)
+    while work:
+        fd = cls.lookup(work.pop())
+        if fd is None:
+            continue
+        for n in _ast.walk(fd.node):
+            if isinstance(n, _ast.Attribute) and isinstance(n.value, _ast.Name) and n.value.id in ("self", "cls") \
+                    and n.attr not in names and cls.lookup(n.attr) is not None and not n.attr.startswith("_reduce_"):
+                names.add(n.attr)
+                work.append(n.attr)
     for m in names:
         fd = cls.lookup(m)
         if fd is not None:
-            cmax = max(cmax, _threshold_of(fd.node))
+            cmax = max(cmax, _threshold_of(fd.node, consts))
     for mod in prog.modules.values():
         if mod.short in ("utilities", "math_functions", "accumulators") or (mod.short == "expression" and "base_expression" in mod.name):
             for fd in mod.funcs.values():
-                cmax = max(cmax, _threshold_of(fd.node))
+                cmax = max(cmax, _threshold_of(fd.node, consts))
         if mod.short in (cls.name.lower(),):
             for fd in mod.funcs.values():
-                cmax = max(cmax, _threshold_of(fd.node))
+                cmax = max(cmax, _threshold_of(fd.node, consts))
     _ARITY_CACHE[key] = cmax
     return cmax
 
@@ -75,7 +135,7 @@ def arity_thresholds(prog):
     cmax = 0
     mods = [m for m in prog.modules.values() if m.short in ("add", "multiply", "n_ary_expression", "utilities", "expression", "math_functions", "accumulators")]
     for m in mods:
-        cmax = max(cmax, _threshold_of(m.tree))
+        cmax = max(cmax, _threshold_of(m.tree, _int_consts(prog)))
     for m in []:
         for n in _ast.walk(m.tree):
             if isinstance(n, _ast.Compare):
